@@ -14,8 +14,10 @@ Proved here:
 * `param_range_old_fails`: the pinned parameter action (`end = start of the name`) violated
   the pairing; the repaired action satisfies it (`param_range_ok`).
 
-NOT proved (established by correspondence + evaluating `rangesOK` / `encloses` on every case):
-that the trees the parser actions build satisfy `rangesOK` for every token list (T5), and the
+That the trees and diagnostics the parser actions build satisfy `rangesOK` for EVERY token list (T5) is
+proved in `Props/C08T5.lean` (`t5_partial`, under the decidable guard that describes the lexer's ranges).
+
+NOT proved (established by correspondence + evaluating the predicates on every case): the
 ranges of the workspace-level responses (definition links, hierarchy items) — those copy node
 ranges (`SymbolInfo.{range, selection_range}`) and are checked by the C10/C13 harness modes.
 -/
